@@ -131,6 +131,20 @@ def laws():
         m = A.vector_magnitude(u)
         return Case([m**2 - A.dot_vectors(u, u), sp.Abs(m) - m])
 
+    # "arbitrary symbolic or numeric components": the for-all-values obligations above are decided over the REALS (the SMT
+    # translation reads every symbol as a real number).  Non-real numeric components are covered by ground instances: the dot
+    # product is bilinear (no conjugation), so magnitude**2 == dot(v, v) and Lagrange's identity are polynomial identities over C.
+    CX = {"[I]": [sp.I], "[1+2I]": [1 + 2 * sp.I], "[I,1]": [sp.I, sp.Integer(1)], "[2,3I,1-I]": [sp.Integer(2), 3 * sp.I, 1 - sp.I],
+          "[-2]": [sp.Integer(-2)], "[sqrt(2)*I,0,1]": [sp.sqrt(2) * sp.I, sp.Integer(0), sp.Integer(1)]}
+
+    @law("vector_magnitude,cross_cartesian_vectors/complex-numeric-components:squared-magnitude-is-self-dot;lagrange",
+         [(a, b) for a in CX for b in ("[I,1]", "[2,3I,1-I]", "[-2]")], ["vector_magnitude", "dot_vectors", "cross_cartesian_vectors"])
+    def _(s, g):
+        c = cart(); u = Vector(list(CX[s[0]]), c); v = Vector(list(CX[s[1]]), c)
+        x = A.cross_cartesian_vectors(u, v)
+        return Case([sp.expand(sp.simplify(A.vector_magnitude(u)**2 - A.dot_vectors(u, u))),
+                     sp.expand(sp.simplify(A.vector_magnitude(x)**2 - (A.vector_magnitude(u)**2 * A.vector_magnitude(v)**2 - A.dot_vectors(u, v)**2)))])
+
     # ------------------------------------------------------------------ cross product
     @law("cross_cartesian_vectors/antisymmetric", L2, ["cross_cartesian_vectors", "_extend_two_vectors"])
     def _(s, g):
@@ -256,6 +270,7 @@ def run(report):
                  "sympy.polys (expand, together, groebner) for the nf back end", "z3 5.1 / cvc5 1.4",
                  "generic execution: control flow of the functions under contract does not depend on component values "
                  "(no Relational.__bool__ is evaluated; SymPy raises TypeError if one were)")
-    report.assume("components are real numbers (symbols declared real=True)",
+    report.assume("components are real numbers (symbols declared real=True); non-real components are covered only by the ground "
+                  "instances of the complex-numeric-components clause (numbers, not symbols)",
                   "degenerate structure (a component that is literally 0, or two equal components) follows the generic "
                   "summary: SymPy auto-evaluation is value preserving")
